@@ -108,6 +108,7 @@ func nhScenarioSnap(rec *nhRec, tid int, seed int64, smType string, store string
 	rec.t = tid
 	c := newNhCluster(rec, 3, smType, store, seed)
 	c.slowUs = 2000
+	c.ssAudit = true
 	c.cfgOf = func(replica uint64) config.Config {
 		return config.Config{ReplicaID: replica, ShardID: c.shard, ElectionRTT: 10, HeartbeatRTT: 2,
 			CheckQuorum: true, SnapshotEntries: 0, CompactionOverhead: 2}
@@ -215,6 +216,9 @@ func nhScenarioSnap(rec *nhRec, tid int, seed int64, smType string, store string
 		if smType == "ondisk" && rng.Intn(2) == 0 {
 			action = "receive" // streamed snapshots, Sync and Shrink after the recovery
 		}
+		if smType == "ondisk" && rng.Intn(3) == 0 {
+			action = "savenow"
+		}
 		fired := false
 		switch action {
 		case "save", "export", "savesave":
@@ -225,6 +229,37 @@ func nhScenarioSnap(rec *nhRec, tid int, seed int64, smType string, store string
 				snapshotOn(v, 0, false)
 			}
 			fired = waitFired(h, 400*time.Millisecond)
+		case "savenow":
+			// on-disk state machines: a burst of writes while a local snapshot is taken (Sync, PrepareSnapshot and
+			// Update compete for the state machine), and the power fails as soon as the snapshot is recorded -
+			// before anything else is synced: what the record says the state machine has on disk must be there
+			if nh := r.nhOf(v); nh != nil {
+				var bw sync.WaitGroup
+				for b := 0; b < 3; b++ {
+					bw.Add(1)
+					go func() {
+						defer bw.Done()
+						defer func() { _ = recover() }()
+						for k := 0; k < 25; k++ {
+							id := atomic.AddInt64(&opid, 1)
+							cmd, _ := json.Marshal(nhCmd{Op: "w", K: "a", V: fmt.Sprintf("v%d", id), ID: int(id)})
+							if rs, err := nh.Propose(nh.GetNoOPSession(c.shard), cmd, 200*time.Millisecond); err == nil {
+								rs.Release()
+							}
+							time.Sleep(150 * time.Microsecond)
+						}
+					}()
+				}
+				func() {
+					defer func() { _ = recover() }()
+					ctx, cancel := context.WithTimeout(context.Background(), time.Second)
+					_, _ = nh.SyncRequestSnapshot(ctx, c.shard, SnapshotOption{OverrideCompactionOverhead: true, CompactionOverhead: uint64(rng.Intn(2))})
+					cancel()
+				}()
+				c.crashNow(h, "savenow")
+				fired = true
+				bw.Wait()
+			}
 		case "receive":
 			// v goes down, the others move on and compact their logs, v comes back and is
 			// streamed a snapshot; the power fails while it is being received / installed
